@@ -1,6 +1,7 @@
 import SageModel.Model.Select
 import SageModel.Model.C18
 import SageModel.Lemmas.C18Select
+import SageModel.Props.C10
 import Mathlib.Algebra.Order.Field.Rat
 import Mathlib.Tactic.Linarith
 import Mathlib.Tactic.NormNum
@@ -632,5 +633,309 @@ theorem model_meets_spec_driver (lo hi : ℚ) (spectra : List (Spectrum ℚ)) (l
 example : channelOk 1 (-20) 20 0 [⟨1249999/10000, 3⟩, ⟨125, 5⟩] 126 3 = false ∧
     channelOk 1 (-20) 20 0 [⟨1249999/10000, 3⟩, ⟨125, 5⟩] 126 5 = true := by
   constructor <;> decide +kernel
+
+/-! ### the processed pipeline: `SpectrumProcessor::process` ∘ `quantify` reports raw maxima -/
+
+/-- a processed peak (C10's model) as a peak of the TMT model -/
+def conv (p : Sage.C10.Peak ℚ) : Peak ℚ := ⟨p.mass, p.intensity⟩
+
+/-- intensities of the RAW peaks `(mz, intensity)` whose m/z lies in the channel's ppm window -/
+def rawWindow (lo hi label : ℚ) (raw : List (ℚ × ℚ)) : List ℚ :=
+  (raw.filter (fun x => inMzWindow lo hi label x.1)).map (·.2)
+
+theorem toMass_rat (mz : ℚ) (z : ℕ) : Sage.C10.toMass mz z = (mz - Sage.Gen.PROTON) * (z : ℚ) := rfl
+
+theorem maxIntensity_perm (l1 l2 : List ℚ) (h : l1.Perm l2) : maxIntensity l1 = maxIntensity l2 := by
+  apply le_antisymm
+  · rw [maxIntensity_le_iff]
+    exact ⟨foldl_max_ge_init l2 0, fun x hx => foldl_max_ge_mem l2 0 x (h.mem_iff.mp hx)⟩
+  · rw [maxIntensity_le_iff]
+    exact ⟨foldl_max_ge_init l1 0, fun x hx => foldl_max_ge_mem l1 0 x (h.mem_iff.mpr hx)⟩
+
+/-- the in-window predicate on processed peaks -/
+def qWin (lo hi label : ℚ) (p : Sage.C10.Peak ℚ) : Bool := inMzWindow lo hi label (p.mass + Sage.Gen.PROTON)
+
+theorem qWin_toPeak (lo hi label : ℚ) (x : ℚ × ℚ) :
+    qWin lo hi label (Sage.C10.toPeak x) = inMzWindow lo hi label x.1 := by
+  unfold qWin Sage.C10.toPeak
+  simp only [toMass_rat]
+  congr 1
+  push_cast
+  ring
+
+theorem window_of_plain (lo hi label : ℚ) (raw : List (ℚ × ℚ)) :
+    (((raw.map Sage.C10.toPeak).filter (qWin lo hi label)).map (·.intensity)) = rawWindow lo hi label raw := by
+  unfold rawWindow
+  induction raw with
+  | nil => rfl
+  | cons x xs ih =>
+    simp only [List.map_cons, List.filter_cons, qWin_toPeak]
+    split
+    · simp only [List.map_cons, ih]; rfl
+    · exact ih
+
+/-- two position-wise related lists give the same in-window peaks -/
+theorem zip_filter_eq {δ ι π : Type} (e : δ → Bool) (t : δ → π) (t' : ι → π) (q : π → Bool) :
+    ∀ (D : List δ) (I : List ι), D.length = I.length →
+    (∀ (p : Nat) (d : δ) (x : ι), D[p]? = some d → I[p]? = some x →
+      (e d = true ∧ t d = t' x) ∨ ((e d = false ∨ q (t d) = false) ∧ q (t' x) = false)) →
+    ((D.filter e).map t).filter q = (I.map t').filter q := by
+  intro D
+  induction D with
+  | nil => intro I hl _; cases I with
+    | nil => rfl
+    | cons _ _ => simp at hl
+  | cons d D ih =>
+    intro I hl h
+    cases I with
+    | nil => simp at hl
+    | cons x I =>
+      have h0 := h 0 d x rfl rfl
+      have ih' := ih I (by simpa using hl) (fun p d' x' hd hx => h (p + 1) d' x' (by simpa using hd) (by simpa using hx))
+      rcases h0 with ⟨he, ht⟩ | ⟨hor, hq⟩
+      · simp only [List.filter_cons, he, ↓reduceIte, List.map_cons, ht, ih']
+      · rcases hor with he | hq'
+        · simp [he, hq, ih']
+        · cases he : e d
+          · simp [he, hq, ih']
+          · simp [he, hq, hq', ih']
+
+
+/-- hypotheses under which the processor cannot change a reporter value -/
+structure Exempt (cfg : Sage.C10.Cfg ℚ) (r : Sage.C10.Raw ℚ) (hi : ℚ) (labels : List ℚ) : Prop where
+  /-- `max_peaks` does not cut -/
+  room : r.peaks.length ≤ cfg.takeTopN
+  /-- when the deisotoper runs (MS2, deisotoping on): ascending m/z, and the cutoff lies above every window -/
+  ascending : r.level = 2 → cfg.deisotope = true → Sage.C10.MzAscending r.peaks
+  above_proton : r.level = 2 → cfg.deisotope = true → Sage.Gen.PROTON ≤ cfg.minDeisoMz
+  guard : r.level = 2 → cfg.deisotope = true → ∀ l ∈ labels, l * (1 + hi / 1000000) < cfg.minDeisoMz
+
+theorem processed_window_perm (cfg : Sage.C10.Cfg ℚ) (r : Sage.C10.Raw ℚ) (lo hi : ℚ) (labels : List ℚ)
+    (hex : Exempt cfg r hi labels) (out : List (Sage.C10.Peak ℚ)) (t : ℚ)
+    (hp : Sage.C10.process cfg r = some (out, t)) (label : ℚ) (hl : label ∈ labels) :
+    ((out.filter (qWin lo hi label)).map (·.intensity)).Perm (rawWindow lo hi label r.peaks) := by
+  by_cases h2 : r.level = 2
+  · have hc : r.centroid = true := by
+      cases hc : r.centroid
+      · have := (Sage.C10.process_panics_iff cfg r).mpr ⟨h2, hc⟩
+        rw [this] at hp; cases hp
+      · rfl
+    cases hd : cfg.deisotope
+    · -- MS2 without deisotoping: nothing is cut, the output is a permutation of the converted input
+      obtain ⟨kept, dropped, out', hpo, hperm, hok, _, hlen, _⟩ := Sage.C10.process_nodeiso cfg r h2 hc hd
+      rw [hpo] at hp
+      simp only [Option.some.injEq, Prod.mk.injEq] at hp
+      obtain ⟨rfl, _⟩ := hp
+      have hdl : dropped = [] := by
+        have h1 := hperm.length_eq
+        simp only [List.length_map, List.length_append] at h1
+        have h2' : kept.length = r.peaks.length := by rw [hlen]; exact Nat.min_eq_left hex.room
+        exact List.eq_nil_of_length_eq_zero (by omega)
+      rw [hdl, List.append_nil] at hperm
+      have := (hok.trans hperm.symm)
+      rw [← window_of_plain]
+      exact (this.filter _).map _
+    · -- MS2 with deisotoping
+      obtain ⟨R, out', hpo, hR, _, hout, _, _⟩ := Sage.C10.process_deiso cfg r h2 hc hd
+      rw [hpo] at hp
+      simp only [Option.some.injEq, Prod.mk.injEq] at hp
+      obtain ⟨rfl, _⟩ := hp
+      set D := Sage.C10.deisotope r.peaks (r.charge.getD 3) (Sage.C10.Num.ofNat 10) cfg.minDeisoMz with hD
+      have hshape := Sage.C10.deisotope_shape r.peaks (r.charge.getD 3) (Sage.C10.Num.ofNat 10) cfg.minDeisoMz
+      have hRlen : R.length ≤ cfg.takeTopN := by
+        have h1 := hR.length_eq
+        have h2' : (D.filter (fun d => d.envelope.isNone)).length ≤ D.length := List.length_filter_le _ _
+        have h3 : D.length = r.peaks.length := hshape.1
+        have := hex.room
+        omega
+      rw [List.take_of_length_le hRlen] at hout
+      have hperm : out'.Perm ((D.filter (fun d => d.envelope.isNone)).map Sage.C10.deisoToPeak) :=
+        hout.trans (hR.map _)
+      have hfil := ((hperm.filter (qWin lo hi label)).map (·.intensity))
+      refine hfil.trans ?_
+      rw [← window_of_plain]
+      apply List.Perm.of_eq
+      congr 1
+      apply zip_filter_eq _ _ _ _ D r.peaks hshape.1
+      intro p d x hdp hxp
+      have hasc := hex.ascending h2 hd
+      have hguard := hex.guard h2 hd label hl
+      by_cases hlt : x.1 < cfg.minDeisoMz
+      · -- below the cutoff: untouched
+        have := Sage.C10.protected_region r.peaks (r.charge.getD 3) (Sage.C10.Num.ofNat 10) cfg.minDeisoMz hasc p d hdp x hxp hlt
+        left
+        subst this
+        exact ⟨rfl, rfl⟩
+      · -- at or above the cutoff: outside the window before and after
+        right
+        have hge : cfg.minDeisoMz ≤ x.1 := not_lt.mp hlt
+        obtain ⟨x', hx', hmz⟩ := hshape.2 p d hdp
+        rw [hxp] at hx'; cases hx'
+        have hqx : qWin lo hi label (Sage.C10.toPeak x) = false := by
+          rw [qWin_toPeak]
+          cases hq : inMzWindow lo hi label x.1
+          · rfl
+          · rw [inMzWindow_iff] at hq
+            linarith [hq.2]
+        refine ⟨?_, hqx⟩
+        cases henv : d.envelope with
+        | some e => left; simp
+        | none =>
+          right
+          have hz : 1 ≤ d.charge.getD 1 := by
+            cases hch : d.charge with
+            | none => simp
+            | some z =>
+              have := Sage.C10.charge_witness r.peaks (r.charge.getD 3) (Sage.C10.Num.ofNat 10) cfg.minDeisoMz p d hdp henv z hch
+              simpa using this.1
+          have hP := hex.above_proton h2 hd
+          unfold qWin Sage.C10.deisoToPeak
+          simp only [toMass_rat, hmz]
+          cases hq : inMzWindow lo hi label ((x.1 - Sage.Gen.PROTON) * ((d.charge.getD 1 : ℕ) : ℚ) + Sage.Gen.PROTON)
+          · rfl
+          · rw [inMzWindow_iff] at hq
+            have hz' : (1 : ℚ) ≤ ((d.charge.getD 1 : ℕ) : ℚ) := by exact_mod_cast hz
+            have hnn : 0 ≤ x.1 - Sage.Gen.PROTON := by linarith
+            have : x.1 - Sage.Gen.PROTON ≤ (x.1 - Sage.Gen.PROTON) * ((d.charge.getD 1 : ℕ) : ℚ) := by
+              nlinarith
+            linarith [hq.2]
+  · -- MS1 / MS3: every peak kept and converted
+    obtain ⟨out', hpo, hperm, _, _⟩ := Sage.C10.process_ms1 cfg r h2
+    rw [hpo] at hp
+    simp only [Option.some.injEq, Prod.mk.injEq] at hp
+    obtain ⟨rfl, _⟩ := hp
+    rw [← window_of_plain]
+    exact (hperm.filter _).map _
+
+
+theorem sorted_conv (out : List (Sage.C10.Peak ℚ)) (h : out.Pairwise (fun a b => a.mass ≤ b.mass)) :
+    (out.map conv).Pairwise (fun a b => a.mass ≤ b.mass) := by
+  rw [List.pairwise_map]; exact h
+
+/-- **C18.processed_channel_spec** — the composed statement, per channel. Let `out` be what
+    `SpectrumProcessor::process` (C10's model: MS1/MS3 conversion, MS2 top-N, MS2 deisotoping) returns for a raw
+    spectrum, under `Exempt`: `max_peaks` does not cut, and IF the deisotoper runs (MS2, deisotoping on) the raw m/z
+    are ascending and the cutoff `min_deisotope_mz` is ≥ PROTON and above the upper edge of every channel window.
+    Then the value `find_reporter_ions`/`quantify` report for the channel on the PROCESSED peaks is the maximum
+    RAW intensity over the raw peaks whose m/z lies within the ppm window of the channel (0 if none):
+    neither the mass conversion, nor the sort, nor the top-N selection, nor deisotoping changes a reporter value. -/
+theorem processed_channel_spec (cfg : Sage.C10.Cfg ℚ) (r : Sage.C10.Raw ℚ) (lo hi : ℚ) (labels : List ℚ)
+    (hex : Exempt cfg r hi labels) (out : List (Sage.C10.Peak ℚ)) (t : ℚ)
+    (hp : Sage.C10.process cfg r = some (out, t)) (label : ℚ) (hl : label ∈ labels) :
+    intensityOr0 (select (out.map conv) label (.ppm lo hi) (some (-Sage.Gen.PROTON))) =
+      maxIntensity (rawWindow lo hi label r.peaks) := by
+  have hs := (Sage.C10.process_sorted cfg r out t hp).1
+  rw [channel_value_spec _ lo hi _ label (sorted_conv out hs)]
+  unfold channelSpec
+  rw [← maxIntensity_perm _ _ (processed_window_perm cfg r lo hi labels hex out t hp label hl)]
+  congr 1
+  rw [List.filter_map, List.map_map]
+  rfl
+
+/-- **C18.pipeline_row_spec** — the same for the whole row: a raw spectrum of the quantification level (≠ 1), processed
+    as the runner does (`processSpec`), gives exactly one row: keyed by its id (level 2) or its first precursor's
+    `spectrumRef` (else), with its file id and injection time, and per channel the maximum raw intensity in the
+    channel's ppm window. -/
+theorem pipeline_row_spec (cfg : Sage.C10.Cfg ℚ) (fileId : Nat) (s : RawSpec ℚ) (lo hi : ℚ) (labels : List ℚ) (level : Nat)
+    (hlv : s.level = level) (h1 : level ≠ 1)
+    (hex : Exempt cfg { level := s.level, centroid := true, charge := (s.precs.head?).bind (·.charge), peaks := s.peaks } hi labels)
+    (sp : Spectrum ℚ) (hsp : processSpec cfg fileId s = some sp) :
+    quantify Sage.Gen.PROTON [sp] labels (.ppm lo hi) level =
+      [{ specId := if level = 2 then s.id else firstRef sp, fileId := fileId, injTime := s.inj,
+         peaks := labels.map fun l => maxIntensity (rawWindow lo hi l s.peaks) }] := by
+  unfold processSpec at hsp
+  split at hsp
+  · cases hsp
+  · rename_i ps t hproc
+    simp only [Option.some.injEq] at hsp
+    subst hsp
+    rw [quantify_rows]
+    simp only [h1, ↓reduceIte, hlv, beq_self_eq_true, List.filter_cons, List.filter_nil, List.map_cons, List.map_nil,
+      List.cons.injEq, and_true]
+    congr 1
+    apply List.map_congr_left
+    intro l hl
+    exact processed_channel_spec cfg _ lo hi labels hex ps t hproc l hl
+
+/-- **C18.runner_exempt** — the configuration the runner builds (`min_deisotope_mz` from the plex at the
+    quantification level, `unwrap_or(0.0)`) satisfies `Exempt` (for the runner's +20 ppm) for every spectrum OF THE
+    QUANTIFICATION LEVEL with ascending m/z and at most `max_peaks` peaks, for every channel list (built-in or
+    user-defined, in any order) that contains a mass ≥ PROTON. -/
+theorem runner_exempt (labels : List ℚ) (level maxPeaks : Nat) (deiso : Bool) (r : Sage.C10.Raw ℚ)
+    (hlv : r.level = level) (hpos : ∃ l ∈ labels, Sage.Gen.PROTON ≤ l)
+    (hasc : Sage.C10.MzAscending r.peaks) (hroom : r.peaks.length ≤ maxPeaks) :
+    Exempt { takeTopN := maxPeaks, deisotope := deiso, minDeisoMz := (minDeisotopeMz labels level guardFactorQ).getD 0 }
+      r 20 labels := by
+  have hPpos : (0 : ℚ) < Sage.Gen.PROTON := by norm_num [Sage.Gen.PROTON]
+  obtain ⟨l0, hl0, hl0P⟩ := hpos
+  refine ⟨hroom, fun _ _ => hasc, ?_, ?_⟩
+  · intro h2 _
+    have hl2 : level = 2 := by rw [← hlv]; exact h2
+    subst hl2
+    obtain ⟨M, hM, _, hmax⟩ := maxOf_spec labels (List.ne_nil_of_mem hl0)
+    simp only [minDeisotopeMz, hM, Option.map_some, Option.getD_some]
+    have h1 : Sage.Gen.PROTON ≤ M := le_trans hl0P (hmax l0 hl0)
+    have h2' : M ≤ M * guardFactorQ := by
+      have : (1 : ℚ) ≤ guardFactorQ := by norm_num [guardFactorQ]
+      nlinarith
+    linarith
+  · intro h2 _
+    have hl2 : level = 2 := by rw [← hlv]; exact h2
+    subst hl2
+    obtain ⟨m, hm, hall⟩ := reporter_region_protected_user labels ⟨l0, hl0, lt_of_lt_of_le hPpos hl0P⟩
+    simp only [hm, Option.getD_some]
+    exact hall
+
+/-- **C18.user_defined_like_builtin** — a user-defined plex listing the masses of a built-in one is the built-in
+    one, for everything the pipeline computes: `reporter_masses()` is the list itself, and `quantify`, the guard and
+    `runnerQuant` read the plex only through `reporter_masses()`. (All theorems above take an arbitrary label list.) -/
+theorem user_defined_like_builtin (T : Tables ℚ) (p : Plex ℚ) :
+    reporterMasses T (.user (reporterMasses T p)) = reporterMasses T p := rfl
+
+
+/-! #### non-vacuity with TMT16 values -/
+
+/-- a raw MS2 spectrum: 127N (400) and 128N (300) are 1.003355 apart — 128N is, for the deisotoper, a less intense
+    +1 isotope of 127N at charge 1; 134N (100) is the heaviest TMT16 channel; 135.1516 (50) lies above the cutoff;
+    500.25 / 500.7517 is a doubly charged fragment pair -/
+def raw16 : RawSpec ℚ :=
+  { level := 2, id := "scan=2", inj := 25/2,
+    precs := [{ mz := 6125/10, charge := some 2, sref := some "scan=1" }],
+    peaks := [(127124761/1000000, 400), (128128116/1000000, 300), (134148245/1000000, 100), (1351516/10000, 50),
+              (50025/100, 900), (5007517/10000, 400)],
+    noise := [] }
+
+/-- the processor configuration the runner builds for TMT16, MS2 quantification, deisotoping on, max_peaks 150 -/
+def cfg16 : Sage.C10.Cfg ℚ :=
+  { takeTopN := 150, deisotope := true,
+    minDeisoMz := (minDeisotopeMz (reporterMasses tablesQ .tmt16) 2 guardFactorQ).getD 0 }
+
+example : Exempt cfg16 { level := 2, centroid := true, charge := some 2, peaks := raw16.peaks } 20 (reporterMasses tablesQ .tmt16) :=
+  runner_exempt (reporterMasses tablesQ .tmt16) 2 150 true _ rfl
+    ⟨16531813 / 131072, by decide +kernel, by norm_num [Sage.Gen.PROTON]⟩
+    (by unfold Sage.C10.MzAscending raw16; norm_num [List.pairwise_cons]) (by decide)
+
+/-- the raw maxima per TMT16 channel: 127N → 400, 128N → 300, 134N → 100, every other channel 0 -/
+example : (reporterMasses tablesQ .tmt16).map (fun l => maxIntensity (rawWindow (-20) 20 l raw16.peaks)) =
+    [0, 400, 0, 300, 0, 0, 0, 0, 0, 0, 0, 0, 0, 0, 0, 100] := by decide +kernel
+
+-- and the model does compute exactly that row (deisotoping merges 500.7517 into 500.25 but leaves 128N alone)
+#guard (processSpec cfg16 0 raw16).map (fun sp =>
+    (quantify Sage.Gen.PROTON [sp] (reporterMasses tablesQ .tmt16) (.ppm (-20) 20) 2).map (fun r => (r.specId, r.peaks)))
+  == some [("scan=2", [0, 400, 0, 300, 0, 0, 0, 0, 0, 0, 0, 0, 0, 0, 0, 100])]
+-- with a cutoff that is too low (the seeded defect: cutoff − PROTON) 128N would be folded into 127N (and 135.1516 into 134N)
+#guard (processSpec ({ cfg16 with minDeisoMz := 0 } : Sage.C10.Cfg ℚ) 0 raw16).map (fun sp =>
+    (quantify Sage.Gen.PROTON [sp] (reporterMasses tablesQ .tmt16) (.ppm (-20) 20) 2).map (·.peaks))
+  == some [[0, 700, 0, 0, 0, 0, 0, 0, 0, 0, 0, 0, 0, 0, 0, 150]]
+
+/-- **C18.tables_match_reference** — every entry of the three reporter tables of tmt.rs (regenerated on every run)
+    lies within 10⁻⁵ Th of the published TMT / TMTpro reporter m/z at the same position: a wrong, missing or
+    swapped table entry breaks this theorem (and the `tmtconsts` verdict). -/
+theorem tables_match_reference : tablesMatchReference tablesQ = true := by decide +kernel
+
+/-- non-vacuity: the check does reject a table with two channels swapped, and one with an entry 0.1 mTh off -/
+example : matchesReference [127124761 / 1000000, 126127726 / 1000000] [126127726 / 1000000, 127124761 / 1000000] = false := by
+  decide +kernel
+example : matchesReference [1261278 / 10000] [126127726 / 1000000] = false := by decide +kernel
 
 end Sage.C18
